@@ -213,7 +213,7 @@ def run(ctx):
 
 
 META = {
-    "technique": "table-driven adjacency analysis (longest-match tokenisation of every prefix-operator pair computed from the repository's operator table) checked against the printers' stream chains and their guards; sibling rule over all expression node classes (stored children vs printed children); shared escape-symmetry checks",
+    "technique": "table-driven adjacency analysis (longest-match tokenisation of every prefix-operator pair computed from the repository's operator table) checked against the printers' stream chains: every separator-free path from operator to operand is enumerated and decided per fusing pair from its branch facts (three-valued); sibling rule over all expression node classes (stored children vs printed children); shared escape-symmetry checks",
     "level": "Static decision that wherever two prefix operators written apart would fuse into another token under the tokenizer's longest-match rule the printer separates them, that binary operators are printed with separators "
              "(only member/scope operators tight), that string and character literals are escaped invertibly with agreeing delimiters, that each of the expression node classes prints every child it stores in source order, and that "
              "explicit parentheses are printed. These hold for every parsed program; the tests print a fixed set of expressions.",
